@@ -24,7 +24,7 @@ NAMES = ['A', 'B', 'C', 'D', 'D0', 'Tz', 'D3', 'G', 'Pr', 'P', 'Pk', 'Pw', 'Mv',
 PAIRS_QUICK = ['A', 'C', 'D', 'D0', 'Tz', 'D3', 'G', 'GT', 'Pr', 'PrT', 'P', 'PT', 'Pk', 'PkT', 'Mv', 'MvT', 'Mvi', 'Rs', 'RsT', 'Rv', 'Rn', 'Bd',
                'R1', 'R3', 'R1T', 'Hw', 'Pl', 'R1i', 'Hwi', 'Pli', 'AI', 'DI', 'I2v', 'Iqu', 'H2', 'Hq', 'Mc', 'McT', 'Ma', 'Mb', 'Mp', 'Mq',
                'Dl', 'Prl', 'BDl', 'BRl', 'BCl', 'Hl', 'Ob', 'Pp', 'Pn', 'BRt', 'BCt']
-SOLO = ['Dq', 'DqI', 'Dh']       # extreme parameter values (tiny / huge diagonal entries): used alone only
+SOLO = ['Dq', 'DqI', 'Dh', 'Dw', 'DwI']       # extreme parameter values (tiny / huge diagonal entries): used alone only
 POOL_QUICK = ['A', 'D', 'AI', 'DI', 'I2v', 'H2', 'G', 'GT', 'Pr', 'R1', 'R1T', 'Hw', 'Pl', 'Tz', 'D0']
 POOL2_EXTRA = ['BCl', 'BCt', 'BRl', 'BRt']      # pytree-valued blocks over different containers: one- and two-slot templates only
 POOL_THOROUGH = POOL_QUICK + ['B', 'C', 'PrT', 'P', 'R2', 'Mv', 'Rs', 'D3', 'Hh']
